@@ -88,6 +88,11 @@ func main() {
 		Mutate: func(r *vh.Rng, ops []wl.Op) []wl.Op {
 			// make sure the interesting shape occurs: a key issued while locked, one issued while unlocked, a lock flip
 			ins := []wl.Op{{Kind: "next", N: 2, Internal: r.Bool()}, {Kind: "unlock", PC: "cur"}, {Kind: "genpub"}, {Kind: "next", N: 1, Internal: r.Bool()}, {Kind: "lock"}, {Kind: "unlock", PC: "cur"}}
+			if r.Chance(2, 3) {
+				// an export / delete / import round trip with unequal key counts on the two branches: every key issued
+				// before it must still sign afterwards
+				ins = append(ins, wl.Op{Kind: "next", N: r.Range(1, 4), Internal: r.Bool()}, wl.Op{Kind: "export", PC: "cur", K: 0}, wl.Op{Kind: "delete", PC: "cur", K: 0}, wl.Op{Kind: "import", PC: "exp", X: 0}, wl.Op{Kind: "unlock", PC: "cur"})
+			}
 			pos := 1 + r.Intn(len(ops)/2+1)
 			out := append([]wl.Op{}, ops[:pos]...)
 			out = append(out, ins...)
